@@ -65,7 +65,6 @@ Definition veq (a b : val) : Prop :=
 
 Definition veqb (a b : val) : bool :=
   match a, b with
-  | VUndef, VUndef => true
   | VNegInf, VNegInf => true
   | VFin x, VFin y => Qeqb x y
   | _, _ => false
